@@ -15,7 +15,7 @@ RULE = ("(a) Hypothesis-generated simple graphs without isolated vertices (union
         "predicates. Non-trivial = some maximal clique larger than m0 shares an edge with another maximal clique, or "
         ">= 2 overlapping maximal cliques of size >= 3; distinct = canonical JSON")
 ASSUMPTIONS = ["each tie-break round removes at least one edge, so more than 50*|E|+100 RNG draws is reported as non-termination"]
-BUDGET = {"quick": (16, 200), "thorough": (16, 2500)}
+BUDGET = {"quick": (16, 200), "thorough": (16, 8000)}
 EXHAUSTIVE = True
 EXHAUSTIVE_NOTE = "family (b) of RULE: all atlas graphs in the stated size range x m0, complete tie-break trees up to 200 leaves"
 ENUM_CHUNK = 6
